@@ -991,3 +991,61 @@ def ob_token_stream_frame(ctx: Ctx) -> Outcome:
     if problems:
         return shape_verdict("ast-frame", problems, probe_literal_lookalikes, appends + merges, {"runner": "props.lexical:probe_literal_lookalikes", "args": {}})
     return Outcome.ok("ast-frame", count=appends + merges, appends=appends, in_place_merges=merges)
+
+
+# ---- frontmatter stripping keeps the body byte for byte (split / join on the same literal separator) --------------------------
+LINE_BOUNDARY_CHARS = [" ", " ", "\x85", "\x0b", "\x0c", "\x1c", "\x1d", "\x1e", "\r"]
+
+
+def probe_frontmatter_body() -> tuple[bool, str]:
+    """a document with YAML frontmatter whose values / comments hold Unicode line-boundary characters other than LF: the
+    body is read exactly as without frontmatter (values intact, receipt lines shifted by the frontmatter's line count only)"""
+    from octave_mcp.core.parser import parse_with_warnings
+
+    bad = []
+    fm = "---\nname: x\ndescription: y\n---\n\n"
+    for ch in LINE_BOUNDARY_CHARS:
+        if ch == "\r":
+            body = '===D===\nK::"a\\u000db"\nL::x->y\n===END===\n'.replace("\\u000d", "\r")
+        else:
+            body = f'===D===\nK::"a{ch}b"\n// c{ch}d\nL::x->y\n===END===\n'
+        try:
+            d0, w0 = parse_with_warnings(body)
+            d1, w1 = parse_with_warnings(fm + body)
+        except Exception as e:  # noqa: BLE001
+            bad.append(f"U+{ord(ch):04X}: {type(e).__name__}: {e}")
+            continue
+        v0, v1 = d0.sections[0].value, d1.sections[0].value
+        if v0 != v1:
+            bad.append(f"U+{ord(ch):04X}: the value reads as {v1!r} behind frontmatter, {v0!r} without")
+        l0 = sorted((w.get("line"), w.get("column"), str(w.get("original"))) for w in w0 if w.get("type") == "normalization")
+        l1 = sorted((w.get("line") - 5 if isinstance(w.get("line"), int) else None, w.get("column"), str(w.get("original"))) for w in w1 if w.get("type") == "normalization")
+        if l0 != l1:
+            bad.append(f"U+{ord(ch):04X}: receipts behind frontmatter {l1} (lines minus the 5 frontmatter lines), without {l0}")
+    return bool(bad), "; ".join(bad[:3]) or f"{len(LINE_BOUNDARY_CHARS)} line-boundary characters: body read identically with and without frontmatter"
+
+
+def ob_frontmatter_split_join(ctx: Ctx) -> Outcome:
+    """_strip_yaml_frontmatter cuts the text into lines and glues the rest back with the SAME literal separator "\\n"
+    (split("\\n") ... "\\n".join(...)): whatever else a line contains - U+2028, U+0085, form feed, a lone CR - passes
+    through untouched, and line numbers keep counting LF only. No splitlines(), no other separator."""
+    from verif.common import shape_verdict
+
+    try:
+        fn = extract.find_def("octave_mcp.core.parser", "_strip_yaml_frontmatter")
+    except ExtractionError as e:
+        return Outcome.undecided("ast-shape", str(e))
+    problems = []
+    splits = [n for n in ast.walk(fn) if isinstance(n, ast.Call) and isinstance(n.func, ast.Attribute) and n.func.attr in ("split", "splitlines", "rsplit", "partition")]
+    joins = [n for n in ast.walk(fn) if isinstance(n, ast.Call) and isinstance(n.func, ast.Attribute) and n.func.attr == "join"]
+    for c in splits:
+        if c.func.attr != "split" or len(c.args) != 1 or not (isinstance(c.args[0], ast.Constant) and c.args[0].value == "\n"):
+            problems.append(f"L{c.lineno}: the text is cut with `{ast.unparse(c)[:50]}` (only split('\\n') keeps every other character inside its line)")
+    for c in joins:
+        if not (isinstance(c.func.value, ast.Constant) and c.func.value.value == "\n"):
+            problems.append(f"L{c.lineno}: lines are glued with {ast.unparse(c.func.value)[:20]} instead of '\\n'")
+    if not splits or not joins:
+        problems.append("no split('\\n') / '\\n'.join(...) pair found")
+    if problems:
+        return shape_verdict("ast-frame", problems, probe_frontmatter_body, max(1, len(splits) + len(joins)), {"runner": "props.lexical:probe_frontmatter_body", "args": {}})
+    return Outcome.ok("ast-frame", count=len(splits) + len(joins))
